@@ -15,8 +15,12 @@ class WorkSheetParser(openpyxl.worksheet._reader.WorkSheetParser):
     def parse_cell(self, element):
         cell = super().parse_cell(element)
         if cell['data_type'] == 'f':
+            # (A cell without an `r` attribute is placed by a column counter:
+            # reading the cell a second time must not advance it again.)
+            col_counter = self.col_counter
             with mock.patch.object(self, 'data_only', True):
                 cell_data = super().parse_cell(element)
+            self.col_counter = col_counter
             cell['cvalue'] = cell_data.get('value')
         return cell
 
